@@ -2,11 +2,22 @@
 "ignorable white space" flavour of text node (isWhitespace() true) exactly when ALL units of the text are XML whitespace - whatever the
 length - and the ordinary flavour otherwise; StylesheetRoot::shouldStripSourceNode consults the strip/preserve declarations only for
 nodes whose flag is set, so a whitespace-only node built without the flag can never be stripped."""
-from xvlib.unit import Fn, Job, Unit, Mutant
+import re
+from xvlib.unit import Fn, Job, Unit, Mutant, Block
 
 SD = 'src/xalanc/XalanSourceTree/XalanSourceTreeDocument.cpp'
+HEAD = Block(SD, r'\A', 'filehead', end=r'^XalanSourceTreeDocument::createTextNode\(', hidden=True)
+
+
+def gen(fn_texts, blk_texts):
+    # file-scope anonymous enums defined before the function (a constant the function may use) are carried over verbatim
+    enums = re.findall(r'^enum\s*\{[^{}]*\};', blk_texts['filehead'], re.M)
+    return {'consts': '\n'.join(enums)}
+
+
 TEMPLATE = r'''
 #include "xv_shim.h"
+@@GEN consts@@
 typedef struct XalanNode XalanNode; typedef struct Self { unsigned long m_nextIndexValue; } Self; typedef size_t XalanDOMString_size_type; typedef int StrId; typedef long TextNode;
 enum { KIND_NONE, KIND_IWS, KIND_PLAIN };
 bool g_all_ws; size_t g_len; const XalanDOMChar* g_chars; int g_made; unsigned long g_made_index; bool g_ws_asked_whole;
@@ -32,6 +43,8 @@ R = ['SCOPE',
 UNIT = Unit(
     name='c13_textnode',
     props=['C13', 'C12'],
+    blocks=[HEAD],
+    gen=gen,
     functions=[
         Fn(SD, r'^XalanSourceTreeDocument::createTextNode\(', 'createTextNode',
            'TextNode createTextNode(Self* self, const XalanDOMChar* chars, XalanDOMString_size_type length, XalanNode* theParentNode, XalanNode* thePreviousSibling, XalanNode* theNextSibling)', rules=R, nloops=0,
